@@ -22,6 +22,17 @@ var keys = []struct{ key, class string }{
 	{`a\b`, "backslash"}, {"[", "open-bracket"}, {"]", "close-bracket"}, {"*", "star"}, {"$", "dollar"}, {"@", "at-sign"},
 	{"?", "question"}, {"-1", "negative-number"}, {"1a", "digit-first"}, {"é", "non-ascii"}, {" ", "space"}, {"\x01", "control"},
 	{"\xff", "invalid-utf8"}, {long65, "long"},
+	{allBytes(0x01, 0x1f), "all-controls"}, {allBytes(0x20, 0x7e), "all-printable-ascii"},
+}
+
+// allBytes is the string of all byte values lo..hi: one key / constant that
+// exercises every cell of the printer's escape table in that range.
+func allBytes(lo, hi int) string {
+	b := make([]byte, 0, hi-lo+1)
+	for i := lo; i <= hi; i++ {
+		b = append(b, byte(i))
+	}
+	return string(b)
 }
 
 func keyClass(k string) string {
